@@ -31,6 +31,20 @@ TREES = [[], ["d:a"], ["d:a", "d:a/b"], ["f:a"], ["d:a", "f:a/b"], ["d:b", "f:a"
 LINK_TREES = [["d:a", "l:k>a"], ["d:a", "l:k>@/a"], ["d:a", "d:a/b", "l:k>a/b"], ["f:f", "l:k>f"], ["l:k>nowhere"], ["d:a", "l:a/k>.."],
               ["l:k>k"], ["d:a", "l:j>a", "l:k>j"], ["d:b", "l:b/k>../a"], ["l:a>b"]]
 
+def known_sysfs(ck, exe, scratch, page):
+    """Replay of the recorded finding: a sysfs attribute (st_size 4096, a few bytes of content) against an exact copy of itself."""
+    sp = ck.write_script("sysfs.script", ["feqsys"])
+    rc, out, err = ck.run_impl(exe, sp, [scratch])
+    model = ck.run_model("c15", sp, [str(page)])
+    ck.cov["evaluations"] = ck.cov.get("evaluations", 0) + 1
+    if rc != 0 or not out:
+        ck.report_violation("sysfs", "# property C15 — zix_file_equals on a sysfs file against its copy: the harness stopped (exit %s)\n#--- script\nfeqsys\n#--- diagnostics\n%s\n" % (rc, err[-1500:])); return
+    if out[0].split(" (")[0] == model[0]: return          # equal, or no such file on this system
+    if out[0].startswith("eq=00 fds=1"):
+        e = ck.known_finding("file-equals-trusts-overreported-size")
+        if e: ck.hit_known(e); return
+    ck.report_violation("sysfs", "# property C15 — zix_file_equals(/sys/devices/system/cpu/online, exact copy)\n#--- script\nfeqsys\n#--- implementation output\n# %s\n#--- model output\n# %s\n" % (out[0], model[0]))
+
 def run(ck):
     ck.level = "proof"
     ck.cov["rule"] = ("create_directories: every path shape over components {a, b, ., .., empty} up to 4 (quick) / 5 (thorough), relative and absolute, with trailing separators, "
@@ -106,4 +120,5 @@ def run(ck):
     hist = [lines[i:i + 300] for i in range(0, len(lines), 300)]
     ck.sample(lines[40:43]); ck.sample(lines[-20:-17])
     for l in lines: ck.hist(l.split()[0])
+    known_sysfs(ck, exe, scratch, page)
     ck.kcompare("k", exe, "c15", hist, keep_head=0, impl_args=[scratch], model_args=[str(page)], what="filesystem functions differ from the model / from direct system calls")
